@@ -408,7 +408,9 @@ props["C03"] = {
 
 props["C02"] = {
     "level": "model_checking", "validate": 6,
-    "unreached_ok": ["idle-round-keeps-replica-at-source", "restore-from-the-replica-succeeds", "restored-database-equals-source", "upload-acknowledged-means-stored"],
+    "unreached_ok": ["idle-round-keeps-replica-at-source", "restore-from-the-replica-succeeds", "restored-database-equals-source", "upload-acknowledged-means-stored",
+                     # VxC04Fresh runs here in its whole-round variant (VS): the verify-level assertions of the other variant stay unreached
+                     "incremental-only-when-nothing-was-missed", "incremental-resumes-where-replication-stopped", "snapshot-holds-every-page"],
     "runs": [
         run("root", "VxC02Snapshot", {}, {}),
         run("root", "VxC02MaxLTX", {}, {}),
@@ -429,7 +431,9 @@ props["C02"] = {
 
 props["C04"] = {
     "level": "model_checking", "validate": 6,
-    "unreached_ok": ["idle-round-keeps-replica-at-source", "restore-from-the-replica-succeeds", "restored-database-equals-source", "upload-acknowledged-means-stored"],
+    "unreached_ok": ["idle-round-keeps-replica-at-source", "restore-from-the-replica-succeeds", "restored-database-equals-source", "upload-acknowledged-means-stored",
+                     # VxC04Fresh runs here in its whole-round variant (VS): the verify-level assertions of the other variant stay unreached
+                     "incremental-only-when-nothing-was-missed", "incremental-resumes-where-replication-stopped", "snapshot-holds-every-page"],
     "runs": [
         run("root", "VxC04Fresh", {"ROUND2": 0}, {}),
         run("root", "VxC04Fresh", {"VS": 1}, {"VS": 1}, note="the same histories through the real verifyAndSyncWithExecutor in one call, judged on content"),
